@@ -194,26 +194,29 @@ def coqchk(pid, timeout=3000):
 # Go harness
 
 def harness_prepare():
-    """The harness module always compiles /repo's current working tree: go.mod is regenerated from
-    /repo/go.mod (same requirement versions and replaces) with a replace of charon => /repo."""
+    """The harness module always compiles the current working tree of REPO: an alternate go.mod
+    (used through -modfile, so the committed harness/go.mod is never rewritten) is regenerated from
+    REPO/go.mod (same requirement versions and replaces) plus a replace of charon => REPO.
+    Returns the modfile path."""
     src = open(os.path.join(REPO, "go.mod")).read()
     src = re.sub(r"(?m)^module\s+\S+", "module verif/harness", src, count=1)
     src += "\nrequire github.com/obolnetwork/charon v0.0.0\n\nreplace github.com/obolnetwork/charon => %s\n" % REPO
-    gm = os.path.join(HARNESS, "go.mod")
+    d = os.path.join(WORK, "gomod_" + hashlib.sha256(REPO.encode()).hexdigest()[:8])
+    os.makedirs(d, exist_ok=True)
+    gm = os.path.join(d, "go.mod")
     with locked("gomod"):
-        if not os.path.exists(gm) or open(gm).read() != src:
+        if not os.path.exists(gm) or not open(gm).read().startswith(src[:200]) or REPO not in open(gm).read():
             with open(gm, "w") as f:
                 f.write(src)
-        gs = os.path.join(HARNESS, "go.sum")
-        want = open(os.path.join(REPO, "go.sum")).read()
-        if not os.path.exists(gs) or open(gs).read() != want:
-            with open(gs, "w") as f:
-                f.write(want)
+        gs = os.path.join(d, "go.sum")
+        if not os.path.exists(gs):
+            shutil.copyfile(os.path.join(REPO, "go.sum"), gs)
+    return gm
 
 
 def go_harness(pkg, run="TestGen", env_extra=None, timeout=1500, tags="verif", outdir=None, extra_args=""):
     """go test -run <run> ./<pkg> in the harness module. Returns (rc, output, outdir)."""
-    harness_prepare()
+    gm = harness_prepare()
     outdir = outdir or os.path.join(WORK, pkg.replace("/", "_"))
     os.makedirs(outdir, exist_ok=True)
     env = go_env()
@@ -221,7 +224,7 @@ def go_harness(pkg, run="TestGen", env_extra=None, timeout=1500, tags="verif", o
     env.setdefault("VERIF_SEED", "1")
     if env_extra:
         env.update({k: str(v) for k, v in env_extra.items()})
-    cmd = "go test -count=1 -tags %s -timeout %ds -run '%s' %s ./%s" % (tags, timeout, run, extra_args, pkg)
+    cmd = "go test -modfile=%s -count=1 -tags %s -timeout %ds -run '%s' %s ./%s" % (gm, tags, timeout, run, extra_args, pkg)
     rc, out = sh(cmd, cwd=HARNESS, env=env, timeout=timeout + 60)
     return rc, out, outdir
 
@@ -368,7 +371,10 @@ class Result:
         ev["coverage"]["known_findings_seen"] = sorted(known_hit.keys())
         if self.broken:
             ev["coverage"]["broken"] = [b["name"] for b in self.broken]
-        with open(os.path.join(VERIF, "evidence", "%s.json" % self.pid), "w") as f:
+        evname = "%s.json" % self.pid
+        if os.environ.get("VERIF_REPLAY") or os.environ.get("VERIF_REPO", "/repo") != "/repo":
+            evname = "%s.scratch.json" % self.pid   # replays and runs against scratch trees do not overwrite evidence
+        with open(os.path.join(VERIF, "evidence", evname), "w") as f:
             json.dump(ev, f, indent=1, default=str)
         for l in lines:
             print(l)
